@@ -1,8 +1,8 @@
 """C04 - garbage collection timing never changes what a program observes.  PARTIAL claim.
 
 Proved (Props/C04.v): the logic of _WrapperCache.__gc_callback__ at quiescent points over a reference graph with
-derived reference counts (content unchanged, release empties the cache, identity/edits under the head-text guard,
-held appended text never coalesced) + refutations for findings 7 and 16.
+derived reference counts (content unchanged, release empties the cache, identity/edits of held nodes, held appended
+text never coalesced) + the refutation for finding 16 (empty head with a chain).
 
 This file: (1) correspondence of Misc/GC.v `gc_step` against real collections at quiescent points (which wrappers
 survive, cache size, lxml slots after merging) for random subsets of held objects; (2) the run-time part, *exercised
